@@ -92,7 +92,8 @@ func (h *H) Gen(rng *rand.Rand, tier, prop string) core.Cfg {
 	c.Retry = core.Pick(rng, 0, 2, 5)
 	c.Gzip = c.Sink != "kafka" && c.Sink != "gelf" && c.Sink != "file" && core.Chance(rng, 0.2)
 	if c.Sink == "file" {
-		c.Retention = core.Pick(rng, 100*time.Millisecond, 300*time.Millisecond, time.Second, 3*time.Second, time.Hour)
+		c.Retention = core.Pick(rng, 20*time.Millisecond, 100*time.Millisecond, 100*time.Millisecond, 300*time.Millisecond, time.Second, time.Hour)
+		c.Flush = core.DurBetween(rng, 2*time.Millisecond, 60*time.Millisecond)
 		// an empty file past its seal time makes the plugin's ticker loop without pause (see DESIGN.md): keep such loops cheap in steps
 		c.Sim.StepCost = 50 * time.Microsecond
 	}
@@ -150,6 +151,12 @@ func (h *H) Gen(rng *rand.Rand, tier, prop string) core.Cfg {
 		}
 		if core.Chance(rng, 0.3) {
 			e.Pause = core.DurBetween(rng, time.Millisecond, 2*c.Flush)
+		}
+		if c.Sink == "file" && core.Chance(rng, 0.4) {
+			e.Pause = core.DurBetween(rng, time.Millisecond, c.Retention/2+time.Millisecond) // let seal-ups fall between and into the writes
+			if e.Pause > 500*time.Millisecond {
+				e.Pause = 500 * time.Millisecond
+			}
 		}
 		c.Events = append(c.Events, e)
 	}
